@@ -456,6 +456,7 @@ func c20Alone(r *rng, id string) {
 }
 
 func TestC20(t *testing.T) {
+	runSel(t, "C20", 240) // reaping never takes the node's own record (after Leave), selection never panics
 	forCases(6, 203, "x", func(i int, r *rng, id string) { lockStir("C20", r, id) })
 	n := envInt("VERIF_N", 120)
 	if thorough() {
